@@ -42,7 +42,7 @@ def run_workers(cases, jobs=16):
 
     def one(chunk):
         slim = [{k: v for k, v in c.items() if k in ("id", "which", "via", "files", "dirs", "config", "config_file",
-                                                      "envvars", "cwd")} for c in chunk]
+                                                      "envvars", "cwd", "remote")} for c in chunk]
         p = subprocess.run([sys.executable, "-m", "vh.props.c17_worker"], input=json.dumps(slim).encode(),
                            stdout=subprocess.PIPE, stderr=subprocess.PIPE, timeout=1500)
         if p.returncode != 0:
@@ -78,7 +78,8 @@ def env_sx(obs):
     file: the configured one, or the default selected by async_client/opentelemetry_client); every other file is
     sent as a file with empty content (the model only asks for its kind)."""
     sec = _section(obs.get("config"))
-    read = {sec.get("base_client_file_path"),
+    bcp = sec.get("base_client_file_path")
+    read = {bcp if isinstance(bcp, str) else None,
             obs["deps"] + "/" + DEFAULT_CLIENT_FILES[(sec.get("async_client", True) is not False,
                                                        sec.get("opentelemetry_client", False) is True)]}
     paths = []
@@ -98,7 +99,10 @@ def world_sx(obs):
     sb = Sym("ok") if o["schema_build"] == "ok" else [Sym("raises"), o["schema_build"][1], o["schema_build"][2]]
     pe = Sym("none") if o["plugin_err"] is None else [Sym("some"), o["plugin_err"]]
     ops = [[Sym("none") if n is None else [Sym("some"), n], Sym("none")] for n in o["ops"]]
-    return [[[f, ok] for f, ok in o["schema_files"]], sb, Sym("none"), list(o["schema_errors"]), pe,
+    rm = o.get("remote") or ["ok", 200, None, None]
+    body = Sym("none") if rm[2] is None else [Sym("some"), json_sx(rm[2]["json"])]
+    rem = [rm[0], rm[1], body, Sym("none") if rm[3] is None else [Sym("some"), rm[3]]]
+    return [[[f, ok] for f, ok in o["schema_files"]], sb, rem, list(o["schema_errors"]), pe,
             [[f, ok] for f, ok in o["query_files"]], [[r, m] for r, m in o["op_errors"]], ops,
             [bool(o.get("fragments")), bool(o.get("query_type")), bool(o.get("mutation_type"))]]
 
@@ -167,6 +171,124 @@ def rel(root, p):
     return os.path.relpath(p, root) if p.startswith(root) else p
 
 
+# ---------------------------------------------------------------- model data derived from /repo's source
+def _post_init_events(tree, cls):
+    import ast
+
+    for n in tree.body:
+        if isinstance(n, ast.ClassDef) and n.name == cls:
+            for f in n.body:
+                if isinstance(f, ast.FunctionDef) and f.name == "__post_init__":
+                    ev = []
+                    for x in ast.walk(f):
+                        if isinstance(x, ast.Call):
+                            fn = x.func.id if isinstance(x.func, ast.Name) else (
+                                x.func.attr if isinstance(x.func, ast.Attribute) else None)
+                            if fn and (fn.startswith("assert_") or fn in (
+                                    "resolve_headers", "__post_init__", "CommentsStrategy", "_set_default_base_client_data")):
+                                attrs = [a.attr for a in ast.walk(x) if isinstance(a, ast.Attribute)
+                                         and isinstance(a.value, ast.Name) and a.value.id == "self"]
+                                ev.append((x.lineno, x.col_offset, fn, ",".join(a for a in attrs if a != "__post_init__")))
+                        if isinstance(x, ast.Raise) and isinstance(x.exc, ast.Call):
+                            fn = x.exc.func.id if isinstance(x.exc.func, ast.Name) else "?"
+                            ev.append((x.lineno, x.col_offset, "raise:" + fn, ""))
+                    return [[a, b2] for _, _, a, b2 in sorted(ev)]
+    return None
+
+
+def _raise_templates(tree):
+    """Message templates of every `raise <CodeGen exception>(...)`: f-string holes become {}."""
+    import ast
+
+    out = []
+    for x in ast.walk(tree):
+        if isinstance(x, ast.Raise) and isinstance(x.exc, ast.Call) and isinstance(x.exc.func, ast.Name) \
+                and x.exc.func.id in ("InvalidConfiguration", "MissingConfiguration") and x.exc.args:
+            a = x.exc.args[0]
+            if isinstance(a, ast.Constant) and isinstance(a.value, str):
+                out.append(a.value)
+            elif isinstance(a, ast.JoinedStr):
+                out.append("".join(v.value if isinstance(v, ast.Constant) else "{}" for v in a.values))
+            else:
+                out.append("<dynamic>")
+    return out
+
+
+def source_derived(run):
+    """Tables of the model that are DATA about settings.py/config.py, re-derived from the source of /repo on
+    every run: order of the calls in the three __post_init__ methods, the TOML kind of every field (from the
+    dataclass annotations), the text of every InvalidConfiguration/MissingConfiguration message.  Any
+    difference fails closed and names the entry."""
+    import ast
+    import dataclasses
+    import inspect
+    import typing
+
+    from ariadne_codegen import config as C
+    from ariadne_codegen import settings as S
+
+    tree = ast.parse(inspect.getsource(S))
+    mb, mc, ms = model.call(ENGINE, [Sym("source-order")])
+    for cls, mine in (("BaseSettings", mb), ("ClientSettings", mc), ("GraphQLSchemaSettings", ms)):
+        real = _post_init_events(tree, cls)
+        if real is None:
+            run.broken("source order", f"{cls}.__post_init__ not found in settings.py")
+            continue
+        mine = [list(x) for x in mine]
+        if real != mine:
+            i = next((k for k, (a, b2) in enumerate(zip(real, mine)) if a != b2), min(len(real), len(mine)))
+            run.broken(f"source order of {cls}.__post_init__",
+                       f"entry {i}: /repo has {real[i] if i < len(real) else '(end)'}, the model mirrors "
+                       f"{mine[i] if i < len(mine) else '(end)'}; full /repo order: {real}")
+    # kinds
+    def kind(t):
+        if t is str:
+            return "str"
+        if t is bool:
+            return "bool"
+        if t is dict:
+            return "strdict"
+        if t is S.CommentsStrategy:
+            return "comments"
+        o = typing.get_origin(t)
+        if o in (list, typing.List) and typing.get_args(t) == (str,):
+            return "strlist"
+        if o in (dict, typing.Dict):
+            return "scalars" if typing.get_args(t)[1].__name__ == "ScalarData" else "strdict"
+        return f"unknown:{t!r}"
+
+    real_k = {}
+    for cls in (S.ClientSettings, S.GraphQLSchemaSettings):
+        hints = typing.get_type_hints(cls)
+        for f in dataclasses.fields(cls):
+            real_k[f.name] = kind(hints[f.name])
+    mk = {k: v for k, v in model.call(ENGINE, [Sym("field-kinds")])}
+    for name in sorted(set(real_k) | set(mk)):
+        if real_k.get(name) != mk.get(name):
+            run.broken("field kind", f"{name}: /repo annotates {real_k.get(name)}, the model reads it as {mk.get(name)}")
+    # messages
+    real_t = set(_raise_templates(tree)) | set(_raise_templates(ast.parse(inspect.getsource(C))))
+    mine_t = set()
+    for m in model.call(ENGINE, [Sym("messages")]):
+        m = m.replace("none, stable, timestamp", "{}").replace("[tool.ariadne-codegen]", "[{}.{}]")
+        if m == "Missing configuration fields: ":
+            m += "{}"
+        mine_t.add(m)
+    if real_t != mine_t:
+        run.broken("message texts", f"raised in /repo but not in the model: {sorted(real_t - mine_t)}; "
+                                    f"in the model but no longer raised by /repo: {sorted(mine_t - real_t)}")
+    run.extra["source_derived"] = {"post_init_entries": len(mb) + len(mc) + len(ms), "field_kinds": len(mk),
+                                   "message_templates": len(mine_t)}
+    # graphql file extensions of the loader (the worker re-states the loader)
+    from ariadne_codegen import schema as SC
+    from .c17_worker import GQL_EXT
+
+    exts = [tuple(e.value for e in ast.walk(ast.parse(__import__('textwrap').dedent(inspect.getsource(SC.walk_graphql_files))))
+                  if isinstance(e, ast.Constant) and isinstance(e.value, str) and e.value.startswith("."))]
+    if not exts or tuple(sorted(set(exts[0]))) != tuple(sorted(GQL_EXT)):
+        run.broken("loader extensions", f"/repo walk_graphql_files uses {exts}, the harness loader {GQL_EXT}")
+
+
 # ---------------------------------------------------------------- K2
 def k2(run):
     import dataclasses
@@ -177,10 +299,13 @@ def k2(run):
     cf, sf = model.call(ENGINE, [Sym("fields")])
     real_c = [f.name for f in dataclasses.fields(S.ClientSettings)]
     real_s = [f.name for f in dataclasses.fields(S.GraphQLSchemaSettings)]
-    if sorted(cf) != sorted(real_c):
-        run.broken("K2 ClientSettings fields", f"model {sorted(cf)} vs code {sorted(real_c)}")
-    if sorted(sf) != sorted(real_s):
-        run.broken("K2 GraphQLSchemaSettings fields", f"model {sorted(sf)} vs code {sorted(real_s)}")
+    for label, mine, real in (("ClientSettings", cf, real_c), ("GraphQLSchemaSettings", sf, real_s)):
+        if sorted(mine) != sorted(real):
+            run.broken(f"K2 {label} fields",
+                       f"fields only in /repo's dataclass (new or renamed, not in the model's constraint table): "
+                       f"{sorted(set(real) - set(mine))}; only in the model (removed or renamed in /repo): "
+                       f"{sorted(set(mine) - set(real))}")
+    source_derived(run)
     # defaults of the dataclasses the model hard-codes
     dflt = {f.name: f.default for f in dataclasses.fields(S.ClientSettings) if f.default is not dataclasses.MISSING}
     want = {"target_package_name": "graphql_client", "client_name": "Client", "client_file_name": "client",
@@ -244,6 +369,10 @@ def build_cases(ctx):
     thorough = ctx.thorough
     cases = []
     valid = G.valid_client_variants(rng, 60 if thorough else 18)
+    if not thorough:   # quick: half of the option pairs, chosen by the seed (seeds 0/1 together cover all)
+        pairs = [c for c in valid if c['id'].startswith('valid/pair/')]
+        keep = {c['id'] for k, c in enumerate(pairs) if (k + ctx.seed) % 2 == 0}
+        valid = [c for c in valid if not c['id'].startswith('valid/pair/') or c['id'] in keep]
     cases += valid
     viols = G.client_violations()
     # every violation on the base configuration, and on random valid variants
@@ -297,6 +426,8 @@ def build_cases(ctx):
     cases += G.syntax_cases()
     cases += G.duplicate_name_cases()
     cases += G.section_cases()
+    cases += G.remote_cases()
+    cases += G.malformed_cases([tuple(x) for x in model.call(ENGINE, [Sym("field-kinds")])])
     # CLI twins (click command + TOML file on disk) of a cross-section
     twins = []
     for c in cases:
@@ -304,7 +435,7 @@ def build_cases(ctx):
             continue
         g = c["group"]
         pick = (c["id"].startswith(("valid/o_", "valid/base", "violation/base/", "violation-schema/", "valid-schema/",
-                                    "syntax/", "section/", "duplicate/"))
+                                    "syntax/", "section/", "duplicate/", "remote/"))
                 or (g in ("invalid-operation", "valid-operation") and c["id"].endswith("/file"))
                 or (g == "invalid-schema" and not c["id"].endswith("+pre")))
         if pick and (thorough or rng.random() < 0.45):
@@ -338,7 +469,10 @@ def k3_problems(case, obs):
         problems.append("configuration dict mutated")
     if obs.get("settings_touched_tree"):
         problems.append("reading settings touched the tree")
-    if case["expect"] == "valid":
+    if case["expect"] == "malformed":
+        if exc is not None and touched:
+            problems.append(f"tree changed before failing: created {obs['created'][:4]} modified {obs['modified'][:4]}")
+    elif case["expect"] == "valid":
         if exc is not None:
             problems.append(f"valid configuration refused: {exc['type']}: {exc['message'][:120]}")
     elif case["expect"] == "invalid":
@@ -367,6 +501,11 @@ def judge(ctx, case, obs, mres, twin_obs):
     exc = obs["exception"]
     icls = impl_class(exc)
     run.dist("impl_outcome", icls or "accepted")
+    if case["group"] == "malformed":
+        run.dist("malformed_stream", (icls or "accepted"))
+        if exc is not None and not exc["codegen"]:
+            run.extra.setdefault("malformed_untyped", {}).setdefault(case["kind"], []).append(
+                f"{json.dumps(_section(obs['config']).get(case['kind'].split(':')[0]))} -> {exc['type']}")
     replay = {"case": {k: case[k] for k in ("id", "which", "via", "files", "dirs", "config", "config_file", "envvars",
                                              "cwd", "expect", "names", "cls")},
               "observed": {k: obs.get(k) for k in ("exception", "created", "modified", "deleted", "config_unchanged",
@@ -418,6 +557,9 @@ def judge(ctx, case, obs, mres, twin_obs):
                 mw, iw = set(m_writes), set(i_files) - set(i_dirs)
                 k1.append(f"effects: model-only writes {sorted(mw - iw)[:8]} code-only writes {sorted(iw - mw)[:8]} "
                           f"mkdir model {m_mkdirs} code {sorted(i_dirs)} deleted {obs['deleted'][:3]}")
+        m_http = sum(1 for e in effects if e[0] == "http")
+        if m_http != obs.get("http_hits", 0):
+            k1.append(f"requests sent to remote_schema_url: model {m_http} vs code {obs.get('http_hits')}")
         # settings object
         if len(mres) > 1 and case["via"] == "func" and "settings" in obs:
             ms = mres[1][0]
